@@ -694,7 +694,14 @@ impl Index {
 
           match err.downcast_ref() {
             Some(&reorg::Error::Recoverable { height, depth }) => {
-              Reorg::handle_reorg(self, height, depth)?;
+              if let Err(err) = Reorg::handle_reorg(self, height, depth) {
+                if let Some(&reorg::Error::Unrecoverable) = err.downcast_ref() {
+                  self
+                    .unrecoverably_reorged
+                    .store(true, atomic::Ordering::Relaxed);
+                }
+                return Err(err);
+              }
             }
             Some(&reorg::Error::Unrecoverable) => {
               self
